@@ -66,3 +66,39 @@ def decModel (bufsize : Nat) (maxNext : Nat) (chunks : List Bytes) : String :=
   ";".intercalate (go d0 maxNext [])
 
 end SF.Ops.Cbor
+
+namespace SF.Ops.Cbor
+open SF SF.Ops SF.Cbor
+
+def encDocs (_opts : String) (docs : List (List XEv)) : Option (List (Bytes × String)) :=
+  let rec go (s : Enc.Enc) (ds : List (List XEv)) (acc : List (Bytes × String)) : Option (List (Bytes × String)) :=
+    match ds with
+    | [] => some acc.reverse
+    | d :: rest =>
+      match Enc.run { s with w := {} } d with
+      | (s', none) => go s' rest ((s'.w.out, toString s'.length.stack.length) :: acc)
+      | (_, some _) => none
+  go {} docs []
+
+def parseDocs (docs : List Bytes) : Option (List (List Ev × String)) :=
+  let rec go (p : Parse.P) (ds : List Bytes) (acc : List (List Ev × String)) : Option (List (List Ev × String)) :=
+    match ds with
+    | [] => some acc.reverse
+    | d :: rest =>
+      match Parse.write { p with evs := [] } d with
+      | (p', none) =>
+        match Parse.finalize p' with
+        | none => go p' rest ((Parse.events p', depthsP p') :: acc)
+        | some _ => none
+      | (_, some _) => none
+  go {} docs []
+
+def parseEvents (chunks : List Bytes) : List Ev × String :=
+  let (p, e) := Parse.writeChunks {} chunks
+  (Parse.events p, errClass e)
+
+def encEvents (_opts : String) (evs : List Ev) : Bytes × Option Nat :=
+  let (s, r) := Enc.run {} (evs.map XEv.ev)
+  (s.w.out, r)
+
+end SF.Ops.Cbor
